@@ -101,6 +101,7 @@ func runRace(q raceReq) raceReply {
 		}
 		mu.Unlock()
 	}
+	noFuel = true
 	var wg sync.WaitGroup
 	for g := 0; g < q.Goroutines; g++ {
 		wg.Add(1)
@@ -184,7 +185,10 @@ func runRace(q raceReq) raceReply {
 					expect("{b: 1, a: 2}.keys", `["a", "b"]`)
 					expect("{a: 1, b: {c: 'd}}.repr", "`{\"a\": 1, \"b\": {\"c\": \"d\"}}`")
 					expect("%{'a: 1}.keys", `["a"]`)
-					atomic.AddInt64(&convs, 4)
+					// standard modules imported by concurrent evaluations (import results are converted back to names)
+					expect("import(\"http\").keys", `["C", "Client", "Response", "S", "Server"]`)
+					expect("import(\"dummy\").keys.len >= 0", "true")
+					atomic.AddInt64(&convs, 6)
 				}
 			}
 			rep.Iterations[g] = i
